@@ -586,6 +586,40 @@ class Proc:
             self._pf[pid] = ProjectFiles("de" if pid == 0 else None, [main])
         return self._pf[pid], self._pfroot
 
+    def stepcfg(self, pre=()):
+        """ONE ProjectConfig per process that is built in steps: created with a path entry for
+        locale de over a small tree; `grow_child` / `grow_paths` later bring locale ja"""
+        from compare_locales.paths import ProjectConfig
+        if not hasattr(self, "_step"):
+            root = os.path.join(self.tmp, "step")
+            for rel in ("en-US/a.ftl", "l10n/de/a.ftl", "l10n/ja/a.ftl", "en-US/k/b.ftl", "l10n/ja/k/b.ftl"):
+                q = os.path.join(root, rel)
+                os.makedirs(os.path.dirname(q), exist_ok=True)
+                with open(q, "w") as fh:
+                    fh.write("k = v\n")
+            pc = ProjectConfig(root + "/main.toml")
+            pc.set_locales(["de"])
+            pc.add_paths({"l10n": root + "/l10n/{locale}/*.ftl", "reference": root + "/en-US/*.ftl"})
+            self._step = (pc, root, set())
+            for g in pre:
+                self.stepgrow(g)
+        return self._step
+
+    def stepgrow(self, which):
+        from compare_locales.paths import ProjectConfig
+        pc, root, grown = self.stepcfg()
+        if which in grown:
+            return
+        grown.add(which)
+        if which == "child":
+            ch = ProjectConfig(root + "/child.toml")
+            ch.set_locales(["ja"])
+            ch.add_paths({"l10n": root + "/l10n/{locale}/*.ftl", "reference": root + "/en-US/*.ftl"})
+            pc.add_child(ch)
+        else:
+            pc.add_paths({"l10n": root + "/l10n/{locale}/k/*.ftl", "reference": root + "/en-US/k/*.ftl",
+                          "locales": ["ja"]})
+
     def matcher(self, m):
         from compare_locales.paths import Matcher
         if m not in self.matchers:
@@ -714,6 +748,23 @@ def exec_op(proc, spec, texts, keep):
                 "jid": [junk_id(e) if is_junk(e) else 0 for e in es]}, es
     f = spec.get("f")
     name = name_of(spec) if f is not None else None
+    if k == "stepcfg":
+        from compare_locales.paths import File, ProjectFiles
+        what = spec["what"]
+        pc, root, grown = proc.stepcfg(spec.get("pre", ()))
+        if what.startswith("grow_"):
+            proc.stepgrow(what[5:])
+            return None, None
+
+        def flt(loc, rel):
+            return pc.filter(File("%s/l10n/%s/%s" % (root, loc, rel), rel, locale=loc))
+
+        def go():
+            if what == "use":
+                return [list(pc.all_locales), flt("de", "a.ftl")]
+            return [list(pc.all_locales), flt("ja", "a.ftl"), flt("ja", "k/b.ftl"), flt("de", "a.ftl"),
+                    [[t[0], t[1]] for t in ProjectFiles("ja", [pc])]]
+        return canon_tmp(guarded(go), proc.tmp), None
     if k == "pfiles":
         pf, root = proc.pfiles(spec["p"])
         what = spec["what"]
@@ -1577,6 +1628,57 @@ PROPOSED_FINDINGS = [
 ]
 
 
+def stepcfg_suite(chk):
+    """a ProjectConfig built in steps: [create, add_paths(de)], optionally USED (all_locales, filter
+    of a de file), then add_child / add_paths bringing locale ja, then queried (all_locales, filter
+    of ja and de files, ProjectFiles('ja')).  Baseline: a fresh object grown the same way and
+    queried without any intermediate use.  Every sequence of 2-4 steps."""
+    import itertools
+    whats = ["use", "grow_child", "grow_paths", "query"]
+    vers = [(), ("child",), ("paths",), ("child", "paths")]
+    jobs, meta = [], []
+    for v in vers:
+        for w in ("use", "query"):
+            jobs.append([{"k": "stepcfg", "what": w, "pre": list(v), "id": 0}])
+            meta.append((w, frozenset(v)))
+    fresh = run_fresh(jobs, {f: [] for f in range(8)}, par=8)
+    base = {m: out["ops"][0]["res"] for m, out in zip(meta, fresh)}
+    seqs = []
+    for n in (2, 3, 4):
+        for combo in itertools.product(whats, repeat=n):
+            if combo[-1] in ("use", "query") and any(c.startswith("grow") or c == "use" for c in combo[:-1]):
+                seqs.append([{"k": "stepcfg", "what": w, "id": i} for i, w in enumerate(combo)])
+    runs = run_forked_many(seqs, {f: [] for f in range(8)})
+    for seq, rn in zip(seqs, runs):
+        names = [o["what"] for o in seq]
+        if "child_raised" in rn:
+            chk.fail("history-run-raised", {"sequence": names}, rn["child_raised"])
+            continue
+        grown = set()
+        for i, (o, r) in enumerate(zip(seq, rn["ops"])):
+            w = o["what"]
+            if w.startswith("grow_"):
+                grown.add(w[5:])
+                continue
+            chk.count(("stepcfg", tuple(names[:i + 1])))
+            exp = base[(w, frozenset(grown))]
+            if r["res"] != exp:
+                sig = "config-built-in-steps-depends-on-intermediate-use"
+                got = r["res"]
+                used_before_grow = any(a in ("use", "query") and any(b.startswith("grow") for b in names[j + 1:i])
+                                       for j, a in enumerate(names[:i]))
+                if (isinstance(got, list) and isinstance(exp, list) and len(got) == len(exp) and got[0] == exp[0]
+                        and (w == "use" or got[4:] == exp[4:]) and used_before_grow):
+                    # all_locales and the file list are right, only filter verdicts differ, and the
+                    # locale was filtered before the edit: the listed stale-FilterCache finding
+                    sig = "filtercache-stale-after-config-edit"
+                chk.fail(sig,
+                         {"sequence": ["ProjectConfig(); set_locales(['de']); add_paths(de entry)"] + names[:i + 1],
+                          "index": i},
+                         {"got": r["res"], "fresh_object_grown_the_same_way": exp})
+    chk.notes.append("STEPCFG: %d sequences over use / grow_child / grow_paths / query" % len(seqs))
+
+
 # ========================================================================= run ===
 def draw_history(rng, ops, weights, n):
     seq = [rng.choices(ops, weights)[0] if weights else rng.choice(ops) for _ in range(n)]
@@ -1792,6 +1894,7 @@ def run(chk, runner_ok):
         outs = model.call([(1, list(k)) for k in ks])
         chk.correspond("JUNK-KEY", [list(k) for k in ks],
                        [common.s2l("_junk_%d_%d-%d" % k) for k in ks], outs)
+    stepcfg_suite(chk)
     # ---- multi-file runs -------------------------------------------------------------
     for u in range(chk.n(1, 4)):
         prefix = draw_history(rng, [o for o in ops if o["k"] in ("parse", "compare", "lint", "filter", "moz")],
